@@ -56,7 +56,7 @@ impl Protocol for Look {
 
 fn rand_name(rng: &mut SmallRng, k: usize, long: bool) -> String {
     let chars: &[u8] = b"abcdefghijklmnopqrstuvwxyzABCXYZ0123456789.-_~!$&'()*+,;=:@/?#[]%^`{|}\"<>\\";
-    let n = if long { rng.gen_range(25..=40) } else { [1usize, 2, 8, 24, 23, 12][rng.gen_range(0..6)] };
+    let n = if long { [rng.gen_range(25..=40), rng.gen_range(25..=40), 100, 200, 239, 240, 241, 242, 250][rng.gen_range(0..9)] } else { [1usize, 2, 8, 24, 23, 12][rng.gen_range(0..6)] };
     let mut s: String = (0..n).map(|_| chars[rng.gen_range(0..chars.len())] as char).collect();
     // names of one run are distinct
     let tag = format!("{k}");
